@@ -51,7 +51,7 @@ def run_check(tier, seed):
         return finish(ev, PROP, findings, broken)
     scale = 1 if tier == 'quick' else 8
     if broken: scale *= 4                  # a proof / translator item broke: search harder for a failing input
-    nv, nf, nfr, nb = 300 * scale, 160 * scale, 50 * scale, 40 * scale
+    nv, nf, nfr, nb = 240 * scale, 120 * scale, 40 * scale, 30 * scale
     evals = 0; shapes = set(); samples = []
     coq_ok = audit['ok']
 
@@ -68,7 +68,7 @@ def run_check(tier, seed):
             if shape and not p04: shapes.add(('virtio',) + shape)
             for p in p04:
                 p['input'] = vtxt[i]; findings.append(p); spec_bad.add(i)
-            if not o.get('harness_panic'): exprs.append(T.vcase_coq(c, o))
+            if not o.get('harness_panic'): exprs.append(T.vcase_coq(c, o, with_dirty=False))     # the dirty log is C17's business
             else: exprs.append('false')
         samples.append({'virtio_case': vtxt[0][:300], 'observed': json.dumps(outs[0])[:300]})
         if coq_ok: ev.cov['model_vs_impl_virtio'] = coq_compare('c04_v', exprs, vtxt, broken, 'Model/Transport.v vrun vs Reader/VirtioFsWriter', spec_bad)
